@@ -1,9 +1,10 @@
 // C09 — loaders fail cleanly on malformed or truncated files.
 // Engine E3 (fault enumeration): for every serialisable class (vf/corpus.hpp) and every small valid neutral file of its corpus,
 //   (a) EVERY byte prefix (interrupted write), also completed by a garbage character,
-//   (b) every value token x replacement menu {-1,0,1,2,7,2000000000,2147483648,NA,x,1e400,-0.0,1.5,<deleted>,<10 kB token>},
+//   (b) every value token x replacement menu {-1,0,1,2,7, huge: 1000000000,2^30,ceil(2^32/3),2000000000,2^31-1, overflow: 2^31,2^32,2^32+1,
+//       1e400,<10 kB of digits>, NA,x,-0.0,1.5,<deleted>},
 //   (c) every line deleted / duplicated / swapped with the next one, one extra value appended to every value line,
-//   (d) (thorough) every pair of the first 8 integer header tokens x {-1,0,2,2000000000,NA}^2,
+//   (d) (thorough) every pair of the first 8 integer header tokens x {-1,0,2,NA,<the five huge values>} x {-1,0,2,2000000000,NA},
 // plus CSV files (Db and Polygons drivers, WKT), LAS well files, legacy keyword files and every grid exchange format that has a
 // reader (Zycor, IfpEn, F2G as text; BMP as binary: every prefix, every header field x integer menu, every header byte x {00,ff}).
 // Each faulty file is loaded in a forked child under AddressSanitizer. Allowed outcomes: the loader reports failure, or it
@@ -125,11 +126,17 @@ static Parsed parse_text(const std::string& t, bool hasTagLine)
 static const std::vector<std::pair<std::string, std::string>>& repl_menu()
 {
   static const std::vector<std::pair<std::string, std::string>> v = {
-    {"-1", "neg"}, {"0", "zero"}, {"1", "small"}, {"2", "small"}, {"7", "small"}, {"2000000000", "huge"}, {"2147483648", "overflow"},
-    {"NA", "NA"}, {"x", "text"}, {"1e400", "overflow"}, {"-0.0", "zero"}, {"1.5", "float"}, {"", "deleted"}, {std::string(10240, '9'), "longtoken"}};
+    {"-1", "neg"}, {"0", "zero"}, {"1", "small"}, {"2", "small"}, {"7", "small"},
+    // "huge": representable ints chosen to hit integer wrap-around of count products from several sides (x2, x3, x4, x8, +1)
+    {"1000000000", "huge"}, {"1073741824", "huge"}, {"1431655766", "huge"}, {"2000000000", "huge"}, {"2147483647", "huge"},
+    // "overflow": not representable as int (2^31, 2^32, 2^32+1, a float overflow, 10 kB of digits)
+    {"2147483648", "overflow"}, {"4294967296", "overflow"}, {"4294967297", "overflow"}, {"1e400", "overflow"}, {std::string(10240, '9'), "overflow"},
+    {"NA", "NA"}, {"x", "text"}, {"-0.0", "zero"}, {"1.5", "float"}, {"", "deleted"}};
   return v;
 }
 static const std::vector<std::string>& pair_menu() { static const std::vector<std::string> v = {"-1", "0", "2", "2000000000", "NA"}; return v; }
+// first token of a pair: the whole "huge" set
+static const std::vector<std::string>& pair_menu1() { static const std::vector<std::string> v = {"-1", "0", "2", "NA", "1000000000", "1073741824", "1431655766", "2000000000", "2147483647"}; return v; }
 
 // class of a token of the VALID file: count-token (unsigned integer literal), value-token (other number or NA), name-token (anything else)
 static std::string token_class(const std::string& w)
@@ -157,8 +164,7 @@ struct Plan
     nTok = p.toks.size() * repl_menu().size();
     nLine = p.lines.size() * 4;
     for (size_t i = 0; i < p.toks.size() && intToks.size() < 8; i++) if (p.toks[i].isInt && p.toks[i].title != "class_tag") intToks.push_back((int)i);
-    size_t m = pair_menu().size();
-    nPair = th ? intToks.size() * (intToks.size() - (intToks.empty() ? 0 : 1)) / 2 * m * m : 0;
+    nPair = th ? intToks.size() * (intToks.size() - (intToks.empty() ? 0 : 1)) / 2 * pair_menu1().size() * pair_menu().size() : 0;
   }
   size_t size() const { return nPrefix + nGarbage + nTok + nLine + nPair; }
   static std::string replace(const std::string& t, size_t b, size_t e, const std::string& r) { return t.substr(0, b) + r + t.substr(e); }
@@ -180,7 +186,7 @@ struct Plan
       const auto& r = repl_menu()[i % repl_menu().size()];
       std::string orig = t.substr(k.beg, k.end - k.beg);
       if (orig == r.first) return false;
-      m = {"token-" + r.second, k.title, replace(t, k.beg, k.end, r.first), "token '" + orig + "' (line " + std::to_string(k.line + 1) + ") replaced by '" + (r.first.size() > 20 ? "<10 kB of 9>" : r.first) + "'", token_class(orig) + "=" + r.second};
+      m = {r.first.size() > 1000 ? std::string("token-longtoken") : "token-" + r.second, k.title, replace(t, k.beg, k.end, r.first), "token '" + orig + "' (line " + std::to_string(k.line + 1) + ") replaced by '" + (r.first.size() > 20 ? "<10 kB of 9>" : r.first) + "'", token_class(orig) + "=" + r.second};
       return true;
     }
     i -= nTok;
@@ -209,12 +215,12 @@ struct Plan
       return true;
     }
     i -= nLine;
-    size_t mm = pair_menu().size(), per = mm * mm, pr = i / per, rr = i % per, a = 0, b = 1;
+    size_t mm = pair_menu().size(), per = pair_menu1().size() * mm, pr = i / per, rr = i % per, a = 0, b = 1;
     // decode pair index
     for (size_t q = 0; q < pr; q++) { b++; if (b >= intToks.size()) { a++; b = a + 1; } }
     if (a >= intToks.size() || b >= intToks.size()) return false;
     const Tok &ka = P->toks[intToks[a]], &kb = P->toks[intToks[b]];
-    const std::string &ra = pair_menu()[rr / mm], &rb = pair_menu()[rr % mm];
+    const std::string &ra = pair_menu1()[rr / mm], &rb = pair_menu()[rr % mm];
     std::string s = replace(t, kb.beg, kb.end, rb);   // later token first: offsets of the earlier one stay valid
     s = replace(s, ka.beg, ka.end, ra);
     m = {"token-pair", ka.title + "+" + kb.title, s, "tokens on lines " + std::to_string(ka.line + 1) + "," + std::to_string(kb.line + 1) + " replaced by '" + ra + "','" + rb + "'", "token-pair"};
